@@ -31,7 +31,7 @@ Lemma worst_cons : forall s l, worst (s :: l) = join s (worst l).
 Proof.
   intros s l. unfold worst. simpl. destruct s; simpl.
   - destruct (existsb is_fatal l); [reflexivity|]. destruct (existsb is_warn l); reflexivity.
-  - destruct (existsb is_fatal l); reflexivity.
+  - destruct (existsb is_fatal l); [reflexivity|]. destruct (existsb is_warn l); reflexivity.
   - reflexivity.
 Qed.
 
@@ -40,16 +40,16 @@ Proof. reflexivity. Qed.
 
 Lemma worst_app : forall a b, worst (a ++ b) = join (worst a) (worst b).
 Proof.
-  induction a as [|s a IH]; intro b; simpl.
-  - rewrite worst_nil, join_ok_l. reflexivity.
-  - rewrite !worst_cons, IH, join_assoc. reflexivity.
+  induction a as [|s a IH]; intro b.
+  - change ([] ++ b) with b. rewrite worst_nil, join_ok_l. reflexivity.
+  - change ((s :: a) ++ b) with (s :: (a ++ b)). rewrite !worst_cons, IH, join_assoc. reflexivity.
 Qed.
 
 Lemma fold_left_join : forall l a, fold_left (fun rv ret => ret2rval ret rv) l a = join a (worst l).
 Proof.
-  induction l as [|s l IH]; intro a; simpl.
-  - rewrite worst_nil, join_ok_r. reflexivity.
-  - rewrite IH, worst_cons, ret2rval_join, join_assoc. reflexivity.
+  induction l as [|s l IH]; intro a.
+  - simpl fold_left. rewrite worst_nil, join_ok_r. reflexivity.
+  - simpl fold_left. rewrite IH, worst_cons, ret2rval_join, join_assoc. reflexivity.
 Qed.
 
 (* the macro computes the worst status of the list *)
@@ -80,8 +80,11 @@ Qed.
 Lemma worst_warn_iff : forall l, worst l = SWarn <-> In SWarn l /\ ~ In SFatal l.
 Proof.
   intro l. rewrite <- existsb_is_fatal, <- existsb_is_warn. unfold worst.
-  destruct (existsb is_fatal l); destruct (existsb is_warn l); split; try discriminate; try tauto; intros [A B]; try discriminate.
-  exfalso. apply B. reflexivity.
+  destruct (existsb is_fatal l); destruct (existsb is_warn l); split; intro H.
+  all: try discriminate.
+  all: try (destruct H as [A B]; try discriminate; exfalso; apply B; reflexivity).
+  - split. reflexivity. discriminate.
+  - reflexivity.
 Qed.
 
 Lemma worst_ok_iff : forall l, worst l = SOk <-> (forall s, In s l -> s = SOk).
@@ -213,8 +216,8 @@ Proof. exists [(Node [Leaf SWarn; Node [Leaf SOk; Leaf SFatal]], Node [])]. spli
 Theorem sticky_partial : forall l, ~ In SWarn l -> fold_with ret2rval_sticky l = fold_status l.
 Proof.
   intros l H. rewrite sticky_is_first, fold_is_worst. induction l as [|s l IH]; simpl. reflexivity.
-  rewrite worst_cons. destruct s; simpl.
-  - rewrite join_ok_l. apply IH. intro. apply H. right. assumption.
+  rewrite worst_cons. destruct s.
+  - rewrite join_ok_l. simpl. apply IH. intro. apply H. right. assumption.
   - exfalso. apply H. left. reflexivity.
   - reflexivity.
 Qed.
@@ -223,8 +226,8 @@ Qed.
 Theorem sticky_agrees_unless_warn_before_fatal : forall pre post,
   ~ In SWarn pre -> fold_with ret2rval_sticky (pre ++ SFatal :: post) = fold_status (pre ++ SFatal :: post).
 Proof.
-  intros pre post H. rewrite sticky_is_first, fold_is_worst, worst_app, worst_cons. simpl.
-  replace (join (worst pre) SFatal) with SFatal by (destruct (worst pre); reflexivity).
+  intros pre post H. rewrite sticky_is_first, fold_is_worst, worst_app, worst_cons.
+  replace (join (worst pre) (join SFatal (worst post))) with SFatal by (destruct (worst pre); reflexivity).
   induction pre as [|s pre IH]; simpl. reflexivity.
   destruct s; simpl.
   - apply IH. intro. apply H. right. assumption.
